@@ -79,6 +79,27 @@ func (e *enc) call(x *ssa.Call) {
 		}
 		e.setResult(x, sig, ts)
 		e.assumps["calls through function values are deterministic and write no package-level state"] = true
+		// ground instances of the preconditions stated about this function parameter (requires forall s :: {f(s)} P(f(s)))
+		if p, ok := c.Value.(*ssa.Parameter); ok && fr.contract != nil {
+			for _, rq := range fr.contract.Requires {
+				q, ok := rq.E.(*SQuant)
+				if !ok || !q.Forall || len(q.Vars) != len(c.Args) || len(q.Trig) != 1 || len(q.Trig[0]) != 1 {
+					continue
+				}
+				tc, ok := q.Trig[0][0].(*SCall)
+				if !ok || tc.Fun != p.Name() {
+					continue
+				}
+				env := e.fnEnv(fr, e.mem)
+				env.oldMem = nil
+				for i, v := range q.Vars {
+					env.vars[v.Name] = e.mkT(e.value(c.Args[i]), c.Args[i].Type())
+				}
+				if g, err := e.specBool(env, q.Body); err == nil {
+					e.assumeAt(g)
+				}
+			}
+		}
 		return
 	}
 	var args []Term
